@@ -37,7 +37,9 @@ ENCS = ['kern', 'ekern', 'bkern', 'bekern', 'akern', 'aekern']
 QUERY_OPS = ['spine_types', 'spine_types', 'get_all_tokens', 'get_all_tokens_encodings', 'get_unique_tokens', 'get_unique_token_encodings', 'frequencies', 'get_metacomments',
              'get_voices', 'get_header_nodes', 'get_spine_ids', 'get_spine_count', 'get_leaves', 'get_header_stage', 'get_first_measure',
              'measures_count', 'iter', 'next', 'spine_types', 'is_monophonic', 'match', 'clone', 'count_nodes_by_stage', 'str_node', 'hash_tokens',
-             'category_algebra', 'tokens_to_encodings', 'str_tokens', 'eq_tokens']
+             'category_algebra', 'tokens_to_encodings', 'str_tokens', 'eq_tokens',
+             # (session 3) standard protocols and the remaining public entry points that only READ a document
+             'deepcopy_doc', 'pickle_doc', 'sorted_categories', 'tree_walk', 'to_concat', 'token_export', 'node_eq_hash', 'legacy_api']
 # queries whose result is a container built for the caller (NOT get_leaves/get_header_stage, which hand out the tree's own lists)
 RESULT_CONTAINERS = ('get_all_tokens', 'get_all_tokens_encodings', 'get_unique_tokens', 'get_unique_token_encodings', 'frequencies',
                      'get_metacomments', 'get_header_nodes', 'get_spine_ids', 'spine_types', 'tokens_to_encodings')
@@ -108,7 +110,7 @@ class C14:
     RULE = ('a live document (docgen, <=25 rows, 30% with 1-2 damaged **kern cells so error tokens are present) and a seeded history of 3..12 '
             'read-only operations: dumps with arbitrary options (six encodings x spine_types x spine_ids x include/exclude as set/list/tuple/single '
             'x valid and invalid measure ranges x show_measure_numbers x instruments), dump/graph to a simulated path or stdout, deprecated '
-            'export() re-using ONE options object, 27 kinds of token/structure queries, interleaved with background traffic on process-global '
+            'export() re-using ONE options object, 35 kinds of token/structure queries (incl. copy.deepcopy, pickle, tree walks with a visitor, Token.export with a caller-supplied filter, Document.to_concat, the deprecated get_spine_types/store/store_graph), interleaved with background traffic on process-global '
             'state (other loads clean and damaged, concat, pitch transposition, agnostic conversion, ExportOptions(), to_transposed of another '
             'document, long-lived importers). Faults: calls built to raise, interruption at a seeded line event, I/O faults on dump/graph targets. '
             'Non-trivial: >=3 operations were compared against a freshly imported copy and >=1 of them was a dumps/export. Distinct: digest of '
@@ -166,8 +168,11 @@ class C14:
                 elif q == 'match':
                     op['other'] = rng.randrange(3)
                     op['core_only'] = rng.random() < 0.5
-                elif q in ('str_node', 'hash_tokens', 'str_tokens', 'eq_tokens'):
+                elif q in ('str_node', 'hash_tokens', 'str_tokens', 'eq_tokens', 'token_export', 'node_eq_hash', 'tree_walk', 'to_concat'):
                     op['pick'] = rng.randrange(1 << 16)
+                elif q == 'legacy_api':
+                    op['pick'] = rng.randrange(1 << 16)
+                    op['opts'] = gen_dumps_opts(rng, raising_bias=0.1)
                 if q in RESULT_CONTAINERS and rng.random() < 0.4:
                     op['edit_result'] = rng.choice(['clear', 'append', 'reverse'])   # the caller owns what a query returns
             elif kind == 'background':
@@ -473,6 +478,60 @@ class C14:
                 return [a == b, a != b, a == a]
             if k == 'tokens_to_encodings':
                 return own(kp.Document.tokens_to_encodings(d.get_all_tokens()), op, side, list)
+            if k == 'deepcopy_doc':
+                import copy as _copy
+                c = _copy.deepcopy(d)
+                return [doc_snapshot(c) == doc_snapshot(d), kp.dumps(c, encoding=kp.Encoding.eKern), c is not d]
+            if k == 'pickle_doc':
+                import pickle as _pickle
+                c = _pickle.loads(_pickle.dumps(d))
+                return [doc_snapshot(c) == doc_snapshot(d), kp.dumps(c, encoding=kp.Encoding.eKern)]
+            if k == 'sorted_categories':
+                cats = [n.token.category for n in nodes if n.token is not None]
+                return [[c.name for c in sorted(cats)], [c.name for c in sorted(set(cats))], max(cats).name, min(cats).name]
+            if k == 'tree_walk':
+                class _Visitor:
+                    def __init__(self):
+                        self.out = []
+
+                    def visit(self, node):
+                        self.out.append([getattr(node, 'stage', None), token_core(node.token) if node.token is not None else None, len(node.children)])
+                walk = [d.tree.dfs, d.tree.dfs_iterative, d.tree.root.dfs, d.tree.root.dfs_iterative][op['pick'] % 4]
+                v = _Visitor()
+                walk(v)
+                return v.out
+            if k == 'to_concat':
+                o = ([d] + others)[op['pick'] % (1 + len(others))]
+                if o is None:
+                    return None
+                c = kp.Document.to_concat(d, o)           # deep_copy=True: both arguments are copied first
+                return [kp.dumps(c, encoding=kp.Encoding.eKern), c is not d]
+            if k == 'token_export':
+                toks = [n.token for n in nodes if n.token is not None]
+                keep = {CAT[x] for x in CATS[op['pick'] % 7::3]}
+                out = []
+                for t in toks[op['pick'] % len(toks):][:5]:
+                    out.append([t.export(), t.export(filter_categories=lambda c: c in keep), t.export(filter_categories=lambda c: True)])
+                return out
+            if k == 'node_eq_hash':
+                a, b = nodes[op['pick'] % len(nodes)], nodes[(op['pick'] // 11) % len(nodes)]
+                return [a == b, a != b, a == a, hash(a) == hash(a), len({n for n in nodes}) == len(nodes)]
+            if k == 'legacy_api':
+                import warnings as _warnings
+                with _warnings.catch_warnings():
+                    _warnings.simplefilter('ignore')        # the deprecated entry points announce themselves; that is not the subject
+                    which = op['pick'] % 3
+                    if which == 0:
+                        h = [None, ['**kern'], ['**text', '**kern'], []][(op['pick'] // 3) % 4]
+                        return own(kp.get_spine_types(d, h), op, side, list)
+                    if which == 1:
+                        path = f'{PREFIX}/{side}/legacy.krn'
+                        kp.store(d, path, export_options(op['opts']))
+                        return fs.get(path)
+                    path = f'{PREFIX}/{side}/legacy.dot'
+                    kp.store_graph(d, path)
+                    data = fs.get(path)
+                    return norm_graph(data.decode('utf-8')) if data is not None else None
             if k == 'category_algebra':
                 c = CAT[CATS[op.get('pick', 3) % len(CATS)]] if 'pick' in op else CAT.CORE
                 return [sorted(x.name for x in CAT.valid(include={CAT.CORE}, exclude={CAT.DURATION})), sorted(x.name for x in CAT.nodes(c)),
